@@ -35,7 +35,7 @@ import (
 func init() {
 	Register(&Spec{
 		ID: "C07", Level: "exploration",
-		Rule: "cases = chains driven by the service director (scripted prologue that constructs every required scenario, then state-aware random intents: define/bind/update/enable/disable/refund-deposit/call/respond/withdraw/params, hostile variants, module-owned contexts; regimes: default params, varied tax/slash fractions, non-base price denom with a real oracle feed); monitor = escrow/liability equalities at every observation point + expected-delta model of every successful tx and of every end block; non-trivial = a successful tx or an end block that moved service funds and whose relation was evaluated; distinct = distinct (relation, msg kind / end-block event kind, discount kind, tax/slash config, denom kind, magnitude); since rounds 11-12: fees restricted to the base denomination switched on and off",
+		Rule: "cases = chains driven by the service director (scripted prologue that constructs every required scenario, then state-aware random intents: define/bind/update/enable/disable/refund-deposit/call/respond/withdraw/params, hostile variants, module-owned contexts; regimes: default params, varied tax/slash fractions, non-base price denom with a real oracle feed); monitor = escrow/liability equalities at every observation point + expected-delta model of every successful tx and of every end block; non-trivial = a successful tx or an end block that moved service funds and whose relation was evaluated; distinct = distinct (relation, msg kind / end-block event kind, discount kind, tax/slash config, denom kind, magnitude); since rounds 11-12: fees restricted to the base denomination switched on and off; since rounds 15-19: after every block a what-if end block with a second keeper over the same store that was given the chain's general fee collector as its pool (slashes must arrive there)",
 		Assume: []string{
 			"tx fees are zero and mint inflation is off, so outside service handlers and the service end blocker no balance moves",
 			"the 'fee pool' of the statement is the fee-collector module account the service keeper is configured with (service_fee_collector in e2e.AppConfig)",
@@ -46,7 +46,7 @@ func init() {
 	})
 	Register(&Spec{
 		ID: "C08", Level: "exploration",
-		Rule: "same director as C07 biased to scheduling: respond/none/late/foreign/duplicate, pause/start/kill/update by consumer and stranger at and around batch and expiry heights, consumer running dry, fee cap below price, disabled providers, QoS above timeout, module-owned contexts with thresholds 1..N through the keeper API; monitor = request/context/batch model built from the statement + recorder behind a registered callback module + raw queue walk after every block; non-trivial = an accepted or deliberately hostile operation, a batch issue/expiry, a callback; distinct = distinct (relation, op kind, hostile kind, context kind, outcome); since round 12: relation 'provider slashed' (recorded deposit falls by the configured fraction per expired request)",
+		Rule: "same director as C07 biased to scheduling: respond/none/late/foreign/duplicate, pause/start/kill/update by consumer and stranger at and around batch and expiry heights, consumer running dry, fee cap below price, disabled providers, QoS above timeout, module-owned contexts with thresholds 1..N through the keeper API; monitor = request/context/batch model built from the statement + recorder behind a registered callback module + raw queue walk after every block; non-trivial = an accepted or deliberately hostile operation, a batch issue/expiry, a callback; distinct = distinct (relation, op kind, hostile kind, context kind, outcome); since round 12: relation 'provider slashed' (recorded deposit falls by the configured fraction per expired request); since rounds 15-19: a running repeated context is not removed below its total; the end block adds an expiration entry for a context only together with a new batch; the C07 end-block balance sheet (consumer refunded, provider slashed) also judges these chains",
 		Assume: []string{
 			"a response delivered in the block of the request's expiration height precedes that block's end blocker and is therefore still 'while active'",
 			"the period rule is judged only between consecutive batches during which the context record (state and settings) did not change",
